@@ -36,6 +36,9 @@ Shapes == {
    Rel(<<M("w", 1, "outer"), M("w", 3, "outer")>>, MP),                                                   \* [[1],[3]]
    Rel(<<M("w", 1, "outer"), M("w", 2, "inner"), M("w", 3, "outer"), M("w", 4, "inner"), M("w", 5, "inner")>>, MP),  \* [[1,2],[3,4,5]]
    Rel(<<M("w", 2, "outer"), M("w", 4, "outer"), M("w", 5, "outer"), M("w", 1, "inner")>>, MP),          \* [[2],[4],[5,1]]
+   \* a member that is not a way (a label node, with the empty role) between an outer way and its inner way: only ways
+   \* start or continue polygons
+   Rel(<<M("w", 1, "outer"), M("n", 1, ""), M("w", 2, "inner")>>, MP),                                     \* [[1,2]]
    Rel(<<M("w", 3, ""), M("w", 1, "via")>>, OT("x", "-", "-", "route")) }
 MCInputs == {[nodes |-> Nodes2, ways |-> Ways2, rels |-> [r \in MCRelIDs |-> CASE r = 1 -> a [] r = 2 -> b [] r = 3 -> c]] :
                 a \in Shapes, b \in Shapes, c \in Shapes}
